@@ -593,6 +593,13 @@ class DB:
 
 
 def load(factdir):
+    db = _load(factdir)
+    from . import expr as _X
+    _X.CONST_DB = db
+    return db
+
+
+def _load(factdir):
     pk = os.path.join(factdir, 'db.pickle')
     if os.path.exists(pk):
         try:
